@@ -196,7 +196,7 @@ def run_job(job):
             got = [e['ev'] for e in rec['ev']]
             rec['l2'] = {'steps': len(want), 'followed': guided.followed, 'skipped': guided.skipped,
                          'exact': got[:len(want)] == want}
-        if res.status != 'ok' or res.exc is not None:
+        if res.status != 'ok' or res.exc is not None or res.thread_errors:
             rec.update(detail=res.detail, waitmap=res.waitmap, exc=repr(res.exc) if res.exc is not None else None,
                        leftover=res.leftover)
             hangs.append(rec)
